@@ -12,7 +12,7 @@ EXHAUSTIVE = {"quick": False, "thorough": True}
 CASE_TIMEOUT = 30
 TECHNIQUE = "Lean 4 theorems (merge = relational join as a corollary of the streamed-join and column-mapping theorems + dispatch model) + API-level differential run of DataFrame.merge with injected chunk sizes"
 LEVEL_TEXT = ("Proof on the model, whole frame (merge_frame_correct_partial, hints_irrelevant_partial, never_raises_on_truthful_hints_partial over "
-              "`merge pandas i cs vf fuel`; partial only w.r.t. NC02c): "
+              "`merge pandas i cs vf fuel`; full statements since fix NC02c, also registered as merge_frame_correct / hints_irrelevant / never_raises_on_truthful_hints): "
               "for left/right/inner/outer, every truthful hint combination, all well-formed frames (single/compound keys, field subsets, name "
               "clashes, every field type incl. indexed strings) and every chunk size >= 1 the modelled merge passes its validators, succeeds, and "
               "its destination is the table of a row list that is a permutation of the relational join (each mapped field under its documented "
@@ -20,11 +20,11 @@ LEVEL_TEXT = ("Proof on the model, whole frame (merge_frame_correct_partial, hin
               "rows are the relational join in key order; the hinted and the hint-free call give permuted row lists; a clash among destination "
               "names is rejected up front whatever the hints (name_clash_rejected, fix NC02b). pandas.merge (unordered path) is a parameter "
               "assumed to return a permutation of the relational join.")
-LEVEL_NOTE = ("The three whole-frame theorems are _partial for ONE reason, open finding NC02c: with both ordered hints an indexed-string entry "
-              "longer than chunksize*value_factor (2^23 bytes by default) makes merge raise, the hint-free call succeeds; they carry that bound. "
+LEVEL_NOTE = ("No hypothesis about indexed-string entry lengths any more: fix NC02c lets ordered_map_valid_indexed_stream size its value buffer for "
+              "the longest entry of the source (model: MapValid.autoValueFactor; lemma entries_fit_auto), so a truthful hint no longer raises for "
+              "an entry above chunksize*value_factor; the as-found behaviour is kept as Witness.C02.nc02c_long_entry_raises_only_with_hints. "
               "Hypotheses of the theorems (WellFormed/TruthfulHints/PandasOK in Props/C02.lean): destination names pairwise distinct incl. the "
-              "four names merge reserves (the code's own guard since fix NC02b); indexed-string entries fit the streamed value buffer cs*vf "
-              "(C04's regime); < 2^62 rows per side; fuel >= |lk|+|rk|+2|join|+1; lk/rk are an order embedding of the key tuples (tied to the "
+              "four names merge reserves (the code's own guard since fix NC02b); < 2^62 rows per side; fuel >= |lk|+|rk|+2|join|+1; lk/rk are an order embedding of the key tuples (tied to the "
               "key columns by the harness, not by a theorem). Trusted: Lean kernel; the hand-written merge model (validated against the real "
               "DataFrame.merge on every enumerated frame pair x mode x truthful hints x injected chunk size, whole destination frame compared); "
               "pandas.merge (the permutation assumption is checked on every case that uses it), h5py.")
@@ -108,7 +108,7 @@ def clash_cases():
     return out
 
 
-VALUE_FACTOR = 16      # what set_chunks injects next to a small chunk size
+VALUE_FACTOR = 8       # the floor of the value buffer ordered_map_valid_indexed_stream sizes for itself (fix NC02c)
 
 
 def long_entry_cases():
@@ -284,10 +284,8 @@ def set_chunks(e, cs):
     for name, fn in orig.items():
         if cs >= (1 << 20):
             setattr(ops, name, fn)
-        elif name == "ordered_map_valid_indexed_stream":
-            # the value buffer must hold the longest entry (supported regime of C04): value_factor large enough
-            setattr(ops, name, e["functools"].partial(fn, chunksize=cs, value_factor=16))
         else:
+            # (the indexed stream is given no value_factor: since fix NC02c it sizes its value buffer itself, floor 8)
             setattr(ops, name, e["functools"].partial(fn, chunksize=cs))
 
 
@@ -591,7 +589,7 @@ def to_model(case):
          "left_tuple": isinstance(on_l, tuple), "right_tuple": isinstance(on_r, tuple),
          "left_fields": lsub, "right_fields": rsub, "hints": case["hints"],
          "lk": list(case["lk"]), "rk": list(case["rk"]),
-         "cs": min(case["cs"], MODEL_CS_CAP), "vf": 16 if case["cs"] < (1 << 20) else 8, "pairs": None}
+         "cs": min(case["cs"], MODEL_CS_CAP), "vf": 8, "pairs": None}
     if not is_ordered_path(case) and case["how"] in HOWS and not case.get("mal"):
         m["pairs"] = pandas_pairs(case)
     return m
